@@ -24,7 +24,7 @@ RULE = ("G-MAP base family: every pipeline of 1..2 functions over root sets {x[i
         "1-function pipelines and the consumers of `a` only; a second map on the same Pipeline object with other sizes; plus the family with TWO internal axes over "
         "x[i]. Thorough adds, as separate complete families: every storage assignment for the whole base family, two internal axes over every root set, rank-3 and "
         "2-D-zip roots, three further size assignments, and 3-function chains. non-trivial = distinct pipeline shape with a mapped axis and at least one of zip / "
-        "outer product / ':' / internal axis / tuple output / full reduction")
+        "outer product / ':' / internal axis / tuple output / full reduction. The 1-function pipelines are enumerated with one, two and three outputs")
 ASSUMPTIONS = ["reference denotation vmc/gen_map.py:ref_map (~50 lines)", "uninterpreted term bodies: value equality is derivation equality",
                "sequential execution (schedules are C03's business)", "zarr storages cannot be imported in this sandbox"]
 BUDGET = {"quick": 80.0, "thorough": 900.0}
@@ -151,9 +151,9 @@ def cases_for(spec, tier):
         yield {"spec": spec, "form": "list", "storage": "file_array", "folder": True}
         yield {"spec": spec, "form": "list", "storage": "dict", "folder": True}
         yield {"spec": spec, "form": "ndarray", "storage": "shared_memory_dict"}
-        if len(spec["funcs"][0]["outs"]) == 2:
+        if len(spec["funcs"][0]["outs"]) >= 2:
             # per-output storage is keyed by the function's output name (the tuple for a multi-output function)
-            yield {"spec": spec, "form": "list", "storage": {"a,b": "file_array", "": "dict"}, "folder": True}
+            yield {"spec": spec, "form": "list", "storage": {",".join(spec["funcs"][0]["outs"]): "file_array", "": "dict"}, "folder": True}
     else:
         # quick bound for the (30 ms) folder-backed run: second function consumes only `a`; thorough: every pipeline
         if len(spec["funcs"][1]["params"]) == 1:
@@ -169,6 +169,7 @@ def specs_for(stage, shard=None):
     """the pipelines of a stage (optionally only one shard of the (root set, first function) pairs)"""
     if stage == "1-function":
         yield from gen_map.pipelines(1, shard=shard)
+        yield from gen_map.pipelines(1, f_outs=[("a", "b", "d")], shard=shard)  # three outputs
     elif stage in ("2-functions", "2-functions-all-storages"):
         for s in gen_map.pipelines(2, shard=shard):
             if len(s["funcs"]) == 2:
